@@ -19,12 +19,17 @@ const prelude = `(set-logic ALL)
 (declare-fun ssub (Str Int Int) Str)
 (declare-fun scat (Str Str) Str)
 (declare-fun sat (Str Int) Int)
+(declare-const zarr_Int_Str (Array Int Str))
+(declare-const zarr_Str_Str (Array Str Str))
+(assert (forall ((i Int)) (! (= (select zarr_Int_Str i) sempty) :pattern ((select zarr_Int_Str i)))))
+(assert (forall ((i Str)) (! (= (select zarr_Str_Str i) sempty) :pattern ((select zarr_Str_Str i)))))
 (assert (= (slen sempty) 0))
 (assert (forall ((s Str)) (! (>= (slen s) 0) :pattern ((slen s)))))
 (assert (forall ((s Str)) (! (=> (= (slen s) 0) (= s sempty)) :pattern ((slen s)))))
 (assert (forall ((s Str) (i Int) (j Int)) (! (=> (and (<= 0 i) (<= i j) (<= j (slen s))) (= (slen (ssub s i j)) (- j i))) :pattern ((ssub s i j)))))
 (assert (forall ((s Str) (i Int) (j Int)) (! (=> (and (= i 0) (= j (slen s))) (= (ssub s i j) s)) :pattern ((ssub s i j)))))
 (assert (forall ((a Str) (b Str)) (! (= (slen (scat a b)) (+ (slen a) (slen b))) :pattern ((scat a b)))))
+(assert (forall ((s Str) (i Int) (j Int) (a Int) (b Int)) (! (=> (and (<= 0 i) (<= i j) (<= j (slen s)) (<= 0 a) (<= a b) (<= b (- j i))) (= (ssub (ssub s i j) a b) (ssub s (+ i a) (+ i b)))) :pattern ((ssub (ssub s i j) a b)))))
 (assert (forall ((s Str) (i Int)) (! (and (<= 0 (sat s i)) (<= (sat s i) 255)) :pattern ((sat s i)))))
 `
 
